@@ -23,6 +23,8 @@ SRC = ("SRC",)
 
 
 def run(model, rep, tier):
+    from ..aggr import Reader as _R
+    _R.MODEL = model
     rep.explanation = EXPLANATION
     r = sysrules.roles(model)
     an = sysrules.solve_anchors(model, r)
